@@ -151,7 +151,7 @@ def floors(tier):
 def _floors(k):
     return {
         "comparisons": {
-            "reject.raises": 150,
+            "reject.raises": 120,
             "twin.identical-before": 40,
             "A.unchanged/sources": 40,
             "A.unchanged/cost_function_value": 30,
@@ -171,7 +171,7 @@ def _floors(k):
             "AB.later/parameter_values": 60,
             "AB.later/sources": 60,
             "AB.later/graph.values": 5,
-            "AB.later/op-outcome": 200,
+            "AB.later/op-outcome": 150,
             "AB.later/fit_result": 3,
         },
         "ops": [
@@ -183,7 +183,7 @@ def _floors(k):
         "reach": ["%s:%s" % a for a in ANCHORS],
         "strata": ["%s|%s" % p for p in REQUIRED_PAIRS] + ["mode|warm", "mode|cold", "follow-valid", "rejected-at-start", "rejected-at-end"],
         "sets": {"operator_variant": len(ALL_VARIANTS), "exception_types": 8, "source_detail": 20},
-        "distinct_nontrivial": 150 * k,
+        "distinct_nontrivial": 120 * k,
     }
 
 
